@@ -900,7 +900,9 @@ def drv_traverse(tier, seed):
   ns = _real_ns()
   ENTER, STOP, CONT = pg.TraverseAction.ENTER, pg.TraverseAction.STOP, pg.TraverseAction.CONTINUE
   wtrav = ('log = []\nret = pg.traverse(root, lambda k, v, p: (log.append(k.keys), pg.TraverseAction.ENTER)[1])\n')
-  def one(expr, flavour):
+  def one(expr, kind):
+    # (traversal does not look at leaves: the values with unusual leaves are one input class here.)
+    flavour = 'unusual-leaves' if kind.startswith('leaf-') else 'partially-bound' if kind.startswith('partial-') else kind
     root = eval(expr, dict(ns))  # pylint: disable=eval-used
     model = _model_eval(expr)
     mpre = list(_mwalk(model))
@@ -1028,7 +1030,7 @@ def drv_traverse(tier, seed):
     # --- pg.contains: every leaf value is found, an absent value is not.
     lv = list(dict.fromkeys(v for _, v in mleaves if type(v) in (int, str)))
     # (pg.contains compares with ==: a value with leaves that are == to everything / refuse a truth value is out of its scope.)
-    g = [_out(pg.contains, root, x) for x in lv] + [_out(pg.contains, root, 'no such leaf'), _out(pg.contains, root, -12345)] if flavour not in ('leaf-eq-always-true', 'leaf-eq-non-bool') else None
+    g = [_out(pg.contains, root, x) for x in lv] + [_out(pg.contains, root, 'no such leaf'), _out(pg.contains, root, -12345)] if kind not in ('leaf-eq-always-true', 'leaf-eq-non-bool') else None
     if g is not None:
       chk(f'pg.contains.finds-exactly-the-present-leaves/{flavour}', key, g == [('ok', True)] * len(lv) + [('ok', False)] * 2, lambda: f'{lv} + 2 absent -> {g}',
           lambda: w0 + f'assert all(pg.contains(root, x) for x in {lv!r}) and not pg.contains(root, "no such leaf")')
@@ -1073,7 +1075,7 @@ def drv_traverse(tier, seed):
             lambda: f'{g} {seen}', lambda: w0 + f'log = []\nret = pg.utils.traverse(root, None, lambda k, v: (log.append(k.keys), k.keys != {list(mp)!r})[1])\nassert ret is False and len(log) == {idx + 1}')
     # --- utils.transform with the identity function: every node once, bottom-up, with its path.
     # (a fn that returns pg.MISSING_VALUE asks utils.transform to delete the key: no identity there.)
-    if flavour in ('plain', 'plain-int-keys', 'plain-subclass', 'shared-plain') or (flavour.startswith('leaf-') and flavour != 'leaf-missing-value' and _is_plain_expr(expr)):
+    if flavour in ('plain', 'plain-int-keys', 'plain-subclass', 'shared-plain') or (kind.startswith('leaf-') and kind != 'leaf-missing-value' and _is_plain_expr(expr)):
       tl = []
       g = _out(pg.utils.transform, root, lambda k, v: (tl.append(_tk(k.keys)), v)[1], None, False)
       chk(f'utils.transform.identity-visits/{flavour}', key, g[0] == 'ok' and tl == [_tk(p) for p, _ in upost] and _deep_same(g[1], model),
@@ -1210,6 +1212,14 @@ def _src(x):
   if isinstance(x, type):
     return x.__name__
   return repr(x)
+
+
+# (witness text) structural sameness that does not rely on the == of leaves nor on dict order.
+SAME_SRC = '''def same(a, b):
+  if isinstance(b, dict): return isinstance(a, dict) and set(a) == set(b) and all(same(a[k], b[k]) for k in b)
+  if isinstance(b, list): return isinstance(a, list) and len(a) == len(b) and all(map(same, a, b))
+  return type(a) is type(b) and repr(a) == repr(b)
+'''
 
 
 def _flat_special():
@@ -1417,7 +1427,7 @@ def drv_flatten(tier, seed):
           cid = {'flat': f'canonicalize-inverts-flatten/{cls}', 'flat-reversed': 'canonicalize.entry-order-immaterial/unusual-leaves',
                  'partially-flattened': 'canonicalize.partially-flattened/unusual-leaves'}[nm]
           chk(cid, (expr, nm, flag), c[0] == 'ok' and _deep_same(c[1], v), lambda: f'canonicalize({form!r}, {flag}) -> {c}, want {v!r}',
-              lambda: w0 + f'form = {_src(form)}\nassert repr(pg.utils.canonicalize(form, {flag})) == repr(v)')
+              lambda: w0 + f'form = {_src(form)}\n' + SAME_SRC + f'assert same(pg.utils.canonicalize(form, {flag}), v)')
     chk(f'flatten.argument-unchanged/{cls}', expr, _deep_same(v, eval(expr, dict(fns))), 'flatten/canonicalize modified the input',  # pylint: disable=eval-used
         lambda: w0 + f'pg.utils.flatten(v, False); assert repr(v) == repr({expr})')
 
